@@ -158,6 +158,9 @@ func runP(c *Ctx, rule string, specs []entrySpec, minFuncs, minPCIs int) {
 		c.Covered[rule+":thorough:cha_only_partial_operations"] = ne
 		c.Covered[rule+":thorough:cha_only_unproven"] = nu
 	}
+	if c.Tier == "thorough" && !strings.HasSuffix(rule, ".w32") {
+		runPWord32(c, rule, specs, fns)
+	}
 	c.Covered[rule+":functions_reachable"] = len(fns)
 	c.Covered[rule+":partial_operations"] = n
 	var ks []string
@@ -172,6 +175,73 @@ func runP(c *Ctx, rule string, specs []entrySpec, minFuncs, minPCIs int) {
 		c.Undecided(rule, "min-functions", token.NoPos, fmt.Sprintf("only %d functions reachable from the entry points (expected >= %d): call graph no longer resolves", len(fns), minFuncs))
 	}
 	c.MinInstances(rule, n, minPCIs)
+}
+
+// word32Enforced: rules whose obligations must also hold where int is 32 bits wide (decoders and
+// inspectors of untrusted bytes: a length read from the input must not turn negative). For the
+// interpreter rules the 32-bit pass is informational: the prover's range reasoning for int64
+// quantities narrowed to int is incomplete there and its reports need reading.
+var word32Enforced = map[string]bool{"P-dec": true, "P-codec": true, "P-insp": true, "P-json": true}
+
+// runPWord32 (thorough tier): the same partial operations decided again with int, uint and uintptr
+// taken as 32-bit types (GOARCH=386/arm), on a fresh engine. Only sites whose verdict differs from
+// the 64-bit pass are recorded.
+func runPWord32(c *Ctx, rule string, specs []entrySpec, fns []*ssa.Function) {
+	saved, savedHook := pEngineCache[c.P], callRangeHook
+	delete(pEngineCache, c.P)
+	wordBits = 32
+	defer func() {
+		wordBits = 64
+		pEngineCache[c.P] = saved
+		callRangeHook = savedHook
+	}()
+	var pe *PEngine
+	if strings.HasPrefix(rule, "P-exec") {
+		pe = configureInterpP(c)
+	} else {
+		pe = pEngine(c)
+	}
+	isEntry := map[*ssa.Function]bool{}
+	for _, e := range resolveEntries(c, rule+".w32", specs) {
+		isEntry[e] = true
+	}
+	n, open := 0, 0
+	for _, fn := range fns {
+		for _, p := range pe.enumerate(fn, isEntry[fn]) {
+			if p.kind == "alloc" {
+				continue
+			}
+			n++
+			ok, facts, why := pe.discharge(p)
+			if ok {
+				continue
+			}
+			// was it open in the 64-bit pass too (then it is already reported/trusted there)?
+			already := false
+			for _, o := range c.Obls {
+				if o.Rule == rule && o.Key == p.key && o.Verdict != Discharged {
+					already = true
+				}
+			}
+			if already {
+				continue
+			}
+			open++
+			if word32Enforced[rule] {
+				if len(facts) > 8 {
+					facts = facts[:8]
+				}
+				c.Fail(rule+".w32", p.key, posOfInstr(p.ins), p.kind+" site not guarded where int is 32 bits wide (GOARCH=386/arm): "+why, facts...)
+			} else {
+				c.InfoNote(rule+".w32", p.key, posOfInstr(p.ins), p.kind+" site not proven where int is 32 bits wide (informational for this rule): "+why)
+			}
+		}
+	}
+	if open == 0 {
+		c.OK(rule+".w32", "all-sites", token.NoPos, fmt.Sprintf("all %d partial operations are also guarded with int/uint taken as 32-bit types", n))
+	}
+	c.Covered[rule+":thorough:word32_partial_operations"] = n
+	c.Covered[rule+":thorough:word32_open"] = open
 }
 
 func posOfInstr(ins ssa.Instruction) token.Pos {
